@@ -133,8 +133,8 @@ package labelmap
 //@   ghost n0 uint64 = 0
 //@   ghostset at "if d.NextLabel != 0 {": g0 = d.MaxRepoLabel
 //@   ghostset at "if d.NextLabel != 0 {": n0 = d.NextLabel
-//@   assert at "d.MaxLabel[v] = d.MaxRepoLabel": heldw("d.mlMu") && d.MaxRepoLabel == g0 + 1
-//@   assert at "if err := d.persistNextLabel(); err != nil {": heldw("d.mlMu") && d.NextLabel == n0 + 1
+//@   assert at "d.MaxLabel[v] = d.MaxRepoLabel": heldw("d.mlMu") && d.MaxRepoLabel == g0 + 1 && d.MaxRepoLabel > g0
+//@   assert at "if err := d.persistNextLabel(); err != nil {": heldw("d.mlMu") && d.NextLabel == n0 + 1 && d.NextLabel > n0
 
 //@ func Data.newLabels
 //@   prop C12 C11 C03
